@@ -112,7 +112,7 @@ def check(ctx):
             ctx.check(ok, "api/no-reordering-from-user-callable", ctx.construct(f"{C}.{root}", " -> ".join(chain) + ": " + src(a.node)[:90]),
                       f"{root}() can be called by user code from inside a running call and performs `{src(a.node)[:70]}` ({a.kind}) on `calls`: "
                       "a pending call disappears or changes place while advance() is iterating")
-        ctx.floor("api/no-reordering-from-user-callable", len(seen), 2, "reachable mutations")
+        ctx.floor("api/no-reordering-from-user-callable", len(seen), 1, "reachable mutations")
     if not sorters:
         sorters = {n for n, m in ms.items() if any(isinstance(c, ast.Call) and isinstance(c.func, ast.Attribute) and c.func.attr == "sort"
                                                  and _self_attr(c.func.value, "calls") for c in ast.walk(m))}
